@@ -66,7 +66,11 @@ RULE = ("every seeded wrapper class x {seed 0, seed 1} x {fused, unfused access 
         "thorough: DataLoader(num_workers 0..3) with explicit sampler orders (runs of equal indices), samples "
         "canonicalised and overwritten inside the worker's collate_fn; one (quick) / two (thorough, ~140 stacks each) "
         "cross-launch cases: the same seeded stacks and indices in two fresh interpreters with different "
-        "PYTHONHASHSEED plus the harness process itself; non-trivial = some request drew from its per-item generator and nothing raised; distinct by "
+        "PYTHONHASHSEED plus the harness process itself; 40 (thorough 400) MUTATION histories (kind 'mutate'): X/Y/Target/Source "
+        "transform wrapper or KDMultiViewWrapper, seeded (seed 0 included), over a KDComposeTransform (directly / nested in "
+        "another compose / as one view config) -> optionally requests -> a stochastic KD transform is appended to / inserted "
+        "into / put in place of a child in the LIVE `transforms` list of that compose -> requests with repeats; every sample "
+        "must equal the one a FRESH wrapper constructed with the final pipeline serves under another global state; non-trivial = some request drew from its per-item generator and nothing raised; distinct by "
         "(stack signature, access-order shapes)")
 
 
@@ -389,6 +393,108 @@ def seeded_class_cases(rng, classes=None):
     return out
 
 
+NONCROP_STOCHASTIC = ["KDRandomHorizontalFlip", "KDAdditiveGaussianNoise", "KDRandomErasing", "KDRandomColorJitter"]
+
+
+def mutate_case(rng):
+    """a history with a MUTATION step: seeded wrapper over a KDComposeTransform pipeline (directly, nested in another
+    compose, or as a view config of KDMultiViewWrapper) -> optionally some requests -> a stochastic KD transform is
+    appended / inserted / put in place of a child in the LIVE `transforms` list of that compose -> requests.  The samples
+    served afterwards must be those of a FRESH wrapper constructed with the final pipeline (same seed): sample i is a
+    function of (data, configuration, seed, i), not of the object's history."""
+    w = rng.choice(list(K.X_WRAPPERS) + ["XTransformWrapper", "KDMultiViewWrapper"])
+    seed = pick_seed(rng)
+    kids = []
+    for _ in range(rng.choice([0, 1, 2, 2, 3])):
+        l = stochastic_leaf(rng) if rng.random() < 0.8 else dict(rng.choice(DET_LEAVES))
+        if l["c"] in ("KDRandomCrop", "KDRandomResizedCrop") and any(k["c"] in ("KDRandomCrop", "KDRandomResizedCrop") for k in kids):
+            continue
+        kids.append(l)
+    c = rng.choice(NONCROP_STOCHASTIC)
+    leaf = {"c": c, "a": rng.choice([i for i, (kind, _) in enumerate(L.REG[c]) if kind == "img"])}
+    inner = {"c": "KDComposeTransform", "k": kids}
+    path = []
+    top = inner
+    if rng.random() < 0.3:
+        other = {"c": "KDRandomHorizontalFlip", "a": 0}
+        top, path = ({"c": "KDComposeTransform", "k": [other, inner]}, [1]) if rng.random() < 0.5 else \
+                    ({"c": "KDComposeTransform", "k": [inner, other]}, [0])
+    ops = ["append", "insert"] + (["replace"] if kids else [])
+    op = rng.choice(ops)
+    pos = len(kids) if op == "append" else rng.randrange(len(kids) + (1 if op == "insert" else 0))
+    if w == "KDMultiViewWrapper":
+        cfg = [[rng.choice([1, 2]), top]]
+        if rng.random() < 0.5:
+            cfg.insert(rng.randrange(2), [1, {"c": "KDRandomHorizontalFlip", "a": 0}])
+        lay = {"w": w, "cfg": cfg, "seed": seed}
+        where = {"cfg": next(j for j, (_, t) in enumerate(cfg) if t is top), "path": path}
+        item = "x"
+    else:
+        lay = {"w": w, "t": top, "seed": seed}
+        where = {"path": path}
+        item = K.X_WRAPPERS[w]
+    N = 6
+    spec = {"root": {"kind": "img", "N": N, "S": 16}, "layers": [lay], "mode": rng.choice([item, item + " class"])}
+    i, j = rng.randrange(N), rng.randrange(N)
+    return {"kind": "mutate", "spec": spec, "where": where, "op": op, "pos": pos, "leaf": leaf,
+            "pre": rng.choice([[], [], [i], [j, i]]), "h": with_runs(rng, [i, j, i] + [rng.randrange(N)]),
+            "hf": [j, i, rng.randrange(N), i], "ga": rng.randrange(10 ** 6), "gb": rng.randrange(10 ** 6),
+            "mut": rng.random() < 0.4}
+
+
+def _mutated_children(kids, op, pos, leaf):
+    kids = list(kids)
+    if op == "replace":
+        kids[pos] = leaf
+    else:
+        kids.insert(pos, leaf)
+    return kids
+
+
+def final_spec(case):
+    """the pipeline description AFTER the mutation (what a fresh wrapper is constructed with)"""
+    import copy
+    spec = copy.deepcopy(case["spec"])
+    lay = spec["layers"][0]
+    t = lay["cfg"][case["where"]["cfg"]][1] if "cfg" in lay else lay["t"]
+    for j in case["where"]["path"]:
+        t = t["k"][j]
+    t["k"] = _mutated_children(t["k"], case["op"], case["pos"], case["leaf"])
+    return spec
+
+
+def run_mutate_case(case):
+    spec = case["spec"]
+    S = spec["root"]["S"]
+    try:
+        L.seed_globals(case["ga"])
+        A = K.build_stack(spec)
+        w = next(x for x in K.sample_wrappers(A) if type(x).__name__ == spec["layers"][0]["w"])
+        t = w.transform_configs[case["where"]["cfg"]].transform if "cfg" in case["where"] else w.transform
+        for j in case["where"]["path"]:
+            t = t.transforms[j]
+        assert type(t).__name__ == "KDComposeTransform" and isinstance(t.transforms, list)
+        obs = {"pre": [[i, _get(A, i, case.get("mut"))] for i in case["pre"]]}
+        L.seed_globals(case["ga"] + 5)
+        new = L.build(case["leaf"], S)
+        # the mutation: on the live list, through the list's own methods (the compose object is not told)
+        if case["op"] == "append":
+            t.transforms.append(new)
+        elif case["op"] == "insert":
+            t.transforms.insert(case["pos"], new)
+        else:
+            t.transforms[case["pos"]] = new
+        L.seed_globals(case["ga"] + 17)
+        obs["out_m"] = [[i, _get(A, i, case.get("mut"))] for i in case["h"]]
+        L.seed_globals(case["gb"])
+        F = K.build_stack(final_spec(case))
+        L.seed_globals(case["gb"] + 4242)
+        obs["out_f"] = [[i, _get(F, i, case.get("mut"))] for i in case["hf"]]
+    except Exception as e:  # noqa
+        return {"construct_error": f"{type(e).__name__}: {e}", "tb": traceback.format_exc()[-800:]}
+    return obs
+
+
 def loader_case(rng):
     spec = gen_stack(rng, no_sched=True)
     if "index" not in spec["mode"].split(" "):
@@ -422,6 +528,7 @@ def gen_cases(rng, tier):
     out += directed_cases(rng, info)
     n = 300 if tier == "quick" else 3000
     out += [mk_case(rng, gen_stack(rng)) for _ in range(n)]
+    out += [mutate_case(rng) for _ in range(40 if tier == "quick" else 400)]
     out += [loader_case(rng) for _ in range(0 if tier == "quick" else 60)]
     out += [launch_case(rng, 10)] if tier == "quick" else [launch_case(rng, 120) for _ in range(2)]
     return out
@@ -434,6 +541,8 @@ def search_cases(rng, tier):
     for _ in range(3):
         for c in directed_cases(rng, info):
             yield c
+    for _ in range(60):
+        yield mutate_case(rng)
     for _ in range(1500):
         yield mk_case(rng, gen_stack(rng))
 
@@ -448,6 +557,16 @@ def shrink(case):
         elif len(items[0]["idx"]) > 1:
             yield {**case, "items": [{**items[0], "idx": items[0]["idx"][:1]}]}
             yield {**case, "items": [{**items[0], "idx": items[0]["idx"][1:]}]}
+        return
+    if case.get("kind") == "mutate":
+        if case["pre"]:
+            yield {**case, "pre": []}
+        if case.get("mut"):
+            yield {**case, "mut": False}
+        for key in ("h", "hf"):
+            if len(case[key]) > 1:
+                yield {**case, key: case[key][:-1]}
+                yield {**case, key: case[key][1:]}
         return
     if case.get("kind") != "stack":
         return
@@ -675,6 +794,8 @@ def run_impl(case):
         return run_loader_case(case)
     if case.get("kind") == "launch":
         return run_launch_case(case)
+    if case.get("kind") == "mutate":
+        return run_mutate_case(case)
     return run_stack_case(case)
 
 
@@ -726,7 +847,23 @@ def oracle(case, obs):
                 seen.setdefault(i, (v, r["nw"], step))
         return None
     if "construct_error" in obs:
-        return f"{sig}: construction failed: {obs['construct_error']}"
+        return f"{sig}: construction failed: {obs['construct_error']}" + (obs.get("tb", "") if case.get("kind") == "mutate" else "")
+    if case.get("kind") == "mutate":
+        lay = case["spec"]["layers"][0]
+        what = (f"{lay['w']}(seed={lay['seed']}): after {case['op']} (position {case['pos']}) of a {case['leaf']['c']} "
+                f"to the live `transforms` list of the KDComposeTransform "
+                + ("of view config %d " % case["where"]["cfg"] if "cfg" in case["where"] else "")
+                + (f"nested at {case['where']['path']} " if case["where"]["path"] else "")
+                + f"[final pipeline {K.spec_sig(final_spec(case))}]")
+        seen = {}
+        for who, outs in (("the mutated object", obs["out_m"]), ("a fresh wrapper constructed with the final pipeline", obs["out_f"])):
+            for pos, (i, v) in enumerate(outs):
+                if i in seen and seen[i][0] != v:
+                    return (f"{sig}: {what}: sample {i} is not a function of (data, config, seed, index): {seen[i][1]} gave "
+                            f"{str(seen[i][0])[:160]}, {who} request #{pos} gave {str(v)[:160]} (requests before the mutation "
+                            f"{case['pre']}, after it {case['h']}, fresh object {case['hf']}, global seeds {case['ga']} / {case['gb']})")
+                seen.setdefault(i, (v, f"{who} request #{pos}"))
+        return None
     for who, outs in (("first", obs["out_a"]), ("second", obs["out_b"])):
         for i, v in outs:
             # an exception out of the wrapper / dataset code is the wrapper's fault; one out of the transform code (an
@@ -803,6 +940,12 @@ def features(case, obs):
         for r in obs.get("launches", []):
             yield "launch_hashseed=" + str(r.get("hashseed"))
         return
+    if case.get("kind") == "mutate":
+        yield "kind=mutate"
+        yield "mutate: " + case["op"] + " " + case["leaf"]["c"] + " / " + case["spec"]["layers"][0]["w"] \
+              + (" nested" if case["where"]["path"] else "") + (" after earlier requests" if case["pre"] else "")
+        yield "mutate: seed0=%s" % (case["spec"]["layers"][0]["seed"] == 0)
+        return
     if case.get("kind") != "stack":
         yield "kind=" + str(case.get("kind"))
         return
@@ -845,6 +988,10 @@ def nontrivial_key(case, obs):
         if any("error" in r for r in obs.get("runs", [])):
             return None
         return ("loader", K.spec_sig(case["spec"]), case["bs"])
+    if case.get("kind") == "mutate":
+        if "out_m" not in obs or any(isinstance(v, list) and v and v[0] == "EXC" for _, v in obs["out_m"] + obs["out_f"]):
+            return None
+        return ("mutate", K.spec_sig(final_spec(case)), case["op"], case["pos"], bool(case["pre"]))
     if case.get("kind") != "stack" or "layers" not in obs:
         return None
     if not any(src for l in obs["layers"] for _, src in l.get("acc", [])):
